@@ -1,7 +1,14 @@
 """C09 — ACL enforcement: nothing unreadable returned, expired tokens never honoured."""
 import collections, json, os, re
 import vlib
-from vlib import coq_bool, coq_str
+from vlib import coq_bool
+
+
+def coq_str(s):
+    """ASCII names as string literals (parsed much faster than byte lists); anything else via bs."""
+    if all(32 <= ord(ch) < 127 for ch in s):
+        return '"%s"%%string' % s.replace('"', '""')
+    return vlib.coq_str(s)
 
 PROP = "C09"
 PROP_FILE = "Properties/C09.v"
